@@ -212,9 +212,10 @@ Definition tp_chemical (orc : oracle) (c : ctx) (s : vst) (T P : Q) : vst :=
 Definition split_V (c : ctx) (V : Q) (s : vst) : vst :=
   set_flows c (vscale V (molv c)) s.
 
-(* _set_TV_chemical — AS THE SOURCE IS: thermal_condition.T receives Psat(T) *)
+(* _set_TV_chemical (after pending_fixes/C04_1: Psat(T) goes to the pressure; before the fix it
+   was assigned to thermal_condition.T) *)
 Definition tv_chemical (orc : oracle) (c : ctx) (s : vst) (T V : Q) : vst :=
-  split_V c V (with_T s (o_Psat orc T)).
+  split_V c V (with_P s (o_Psat orc T)).
 (* _set_PV_chemical *)
 Definition pv_chemical (orc : oracle) (c : ctx) (s : vst) (P V : Q) : vst :=
   split_V c V (with_T s (o_Tsat orc P)).
@@ -235,10 +236,11 @@ Definition ph_chemical (orc : oracle) (c : ctx) (m : mach) (P H : Q) : mach :=
       let V := (H - H_bub) / (H_dew - H_bub) in
       mset m (split_V c V (ms m)).
 
-(* _set_TH_chemical / _set_TS_chemical *)
+(* _set_TH_chemical / _set_TS_chemical (after pending_fixes/C04_3: the specified T is stored
+   first; before the fix thermal_condition.T was never written on this path) *)
 Definition th_chemical (orc : oracle) (c : ctx) (m : mach) (T H : Q) : vres mach :=
   let P := o_Psat orc T in
-  let m := mset m (all_vap c (with_P (ms m) P)) in
+  let m := mset m (all_vap c (with_P (with_T (ms m) T) P)) in
   let (m, H_dew) := call_xH orc m T P in
   if qleb H_dew H then VErr VNotImpl m
   else
@@ -260,9 +262,9 @@ Definition lever (c : ctx) (x y : vec) (m : mach) : vres mach :=
   let v := vscale (Fmol c * sf) (fit (length (idx c)) y) in
   VOk (mset m (set_flows c v (ms m))).
 
-(* set_Tx (bubble = true, spec_T = true), set_Px, set_Ty, set_Py.
-   AS THE SOURCE IS: the specified T (or P) is not written to the thermal condition. *)
-Definition set_xy (cf : cfg) (orc : oracle) (bubble specT : bool) (comp : vec) (m : mach) : vres mach :=
+(* set_Tx (bubble = true, spec_T = true), set_Px, set_Ty, set_Py (after pending_fixes/C04_2: the
+   specified member [sv] of the pair is stored next to the solved one; before the fix it was not) *)
+Definition set_xy (cf : cfg) (orc : oracle) (bubble specT : bool) (sv : Q) (comp : vec) (m : mach) : vres mach :=
   match setup cf (ms m) with
   | SErr e s => VErr e (mset m s)
   | SNoEq s => VErr VNoEq (mset m s)
@@ -271,7 +273,7 @@ Definition set_xy (cf : cfg) (orc : oracle) (bubble specT : bool) (comp : vec) (
     if negb (Nat.eqb (cN c) 2) then VErr VAssert m else
     let (m, r) := if bubble then call_bubble orc c m else call_dew orc c m in
     let (a, other) := r in
-    let m := mset m (if specT then with_P (ms m) a else with_T (ms m) a) in
+    let m := mset m (if specT then with_T (with_P (ms m) a) sv else with_P (with_T (ms m) a) sv) in
     if bubble then lever c comp other m else lever c other comp m
   end.
 
@@ -522,8 +524,8 @@ Definition vle_call (cf : cfg) (orc : oracle) (sp : spec) (m : mach) : vres mach
   | SpTV T V => catch_noeq (set_TV cf orc T V m) (fun s => with_T s T)
   | SpTH T H => set_TH cf orc T H m
   | SpTS T Sv => set_TH cf orc T Sv m
-  | SpTx T x => set_xy cf orc true true x m
-  | SpTy T y => set_xy cf orc false true y m
+  | SpTx T x => set_xy cf orc true true T x m
+  | SpTy T y => set_xy cf orc false true T y m
   | SpPV P V => catch_noeq (set_PV cf orc P V m) (fun s => with_P s P)
   | SpPH P H => catch_noeq (set_PH cf orc false P H m) (fun s => with_P s P)
   | SpPS P Sv =>
@@ -531,8 +533,8 @@ Definition vle_call (cf : cfg) (orc : oracle) (sp : spec) (m : mach) : vres mach
     | VOk m' => VOk m'
     | VErr _ m1 => catch_noeq (set_PH cf orc true P Sv m1) (fun s => with_P s P)
     end
-  | SpPx P x => set_xy cf orc true false x m
-  | SpPy P y => set_xy cf orc false false y m
+  | SpPx P x => set_xy cf orc true false P x m
+  | SpPy P y => set_xy cf orc false false P y m
   end.
 
 Definition vle (cf : cfg) (orc : oracle) (sp : spec) (s : vst) : vres vst :=
@@ -664,6 +666,17 @@ Definition vle_check (cf : cfg) (orc : oracle) (sp : spec) (s : vst)
   match vle_call cf orc sp (mkm s 0), raised with
   | VOk m, None => vst_eqb (ms m) expect && Nat.eqb (mk m) ticks
   | VErr e m, Some e' => verr_eqb e e' && vst_eqb (ms m) expect && Nat.eqb (mk m) ticks
+  | _, _ => false
+  end.
+
+(* C03 compares the material only (T and P are the business of C04) *)
+Definition flows_eqb (a b : vst) : bool :=
+  vapproxb (liq a) (liq b) && vapproxb (vap a) (vap b) && list_eqb vapproxb (oth a) (oth b).
+Definition vle_check_flows (cf : cfg) (orc : oracle) (sp : spec) (s : vst)
+           (expect : vst) (raised : option verr) (ticks : nat) : bool :=
+  match vle_call cf orc sp (mkm s 0), raised with
+  | VOk m, None => flows_eqb (ms m) expect && Nat.eqb (mk m) ticks
+  | VErr e m, Some e' => verr_eqb e e' && flows_eqb (ms m) expect && Nat.eqb (mk m) ticks
   | _, _ => false
   end.
 
